@@ -175,14 +175,14 @@ def gen_tree(ctx: Ctx, depth: int, ints: list[int]) -> Any:
     rng = ctx.rng
     if depth == 0 or rng.random() < 0.15:
         k = rng.random()
-        if k < 0.55:
+        if k < 0.62:
             v = rng.choice(ints) if rng.random() < 0.5 else rng.choice([0, 1, 2, 3, 5, 8, 63, 64, 255])
             return ("lit", abs(v)) if rng.random() < 0.8 else ("un", "-", ("lit", abs(v)))
-        if k < 0.65:
+        if k < 0.7:
             return ("T",) if rng.random() < 0.5 else ("F",)
-        if k < 0.8:
+        if k < 0.84:
             return ("ref", rng.random() < 0.8, rng.choice([rng.choice(ints), True, False, "ab", 7, -3]))
-        if k < 0.93:
+        if k < 0.9:
             return ("lit", rng.choice(STRS))
         return ("lit", rng.choice(BYTESS))
     if rng.random() < 0.2:
@@ -251,6 +251,27 @@ def _tree_eval(t: Any) -> tuple[str, Any]:
         return "ok", PYUN[t[1]](e)
     except TypeError as ex:
         return "raise", ex
+
+
+def tree_overflows(t: Any) -> bool:
+    """some operator application inside the tree raises OverflowError in CPython — there the real folder
+    raises too (F24) and the Lean model (which has no 'folder raises' outcome) is not consulted"""
+    k = t[0]
+    if k == "bin":
+        if tree_overflows(t[2]) or tree_overflows(t[3]):
+            return True
+        (lk, l), (rk, r) = _tree_eval(t[2]), _tree_eval(t[3])
+        if lk == "ok" and rk == "ok":
+            try:
+                PYOP[t[1]](l, r)
+            except OverflowError:
+                return True
+            except Exception:  # noqa: BLE001
+                return False
+        return False
+    if k == "un":
+        return tree_overflows(t[2])
+    return False
 
 
 def tree_nodes(t: Any, mypyc: bool):
@@ -495,19 +516,27 @@ def run_trees(ctx: Ctx) -> None:
             continue
         trees.append(t)
         wants.append(want)
-    lines, meta = [], []
+    lines, meta, to_driver = [], [], []
     for t, w in zip(trees, wants):
         toks = " ".join(tree_tokens(t))
+        ovf = tree_overflows(t)
         for ext in (0, 1):
             lines.append(f"E {ext} {toks}")
             meta.append((ext, t, w))
-    model = ctx.lean_driver(DRIVER, lines)
-    if len(model) != len(lines):
+            to_driver.append(not ovf)
+    out = iter(ctx.lean_driver(DRIVER, [ln for ln, d in zip(lines, to_driver) if d]))
+    try:
+        model = [next(out) if d else "fold=skip py=skip" for d in to_driver]
+    except StopIteration:
         raise ToolFailure("fold driver: wrong number of output lines for trees")
     nd = 0
     for (ext, t, want), mline, line in zip(meta, model, lines):
         mfold, mpy = mline.split(" ")
         mfold, mpy = mfold[5:], mpy[3:]
+        skip_model = mfold == "skip"
+        if skip_model:
+            ctx.count("fold_trees_outside_model_overflow")
+            mfold, mpy = "none", "notmodelled"
         which = "mypyc" if ext else "mypy"
         node = tree_nodes(t, bool(ext))
         if ext:
@@ -529,7 +558,7 @@ def run_trees(ctx: Ctx) -> None:
                         {"sub": "fold", "folder": which, "kind": "E", "tokens": line, "source": src,
                          "folder_result": real_c, "cpython": want})
         # a float below the root is outside the model: compare the real folder with CPython only
-        float_path = real_c == "float" or (mfold == "none" and mpy == "notmodelled")
+        float_path = real_c == "float" or (mfold == "none" and mpy == "notmodelled") or skip_model
         if not float_path and real_c != mfold and not real_c.startswith("exc:"):
             nd += 1
             ctx.count("disagreements_checked")
@@ -623,6 +652,8 @@ def run_end_to_end(ctx: Ctx) -> None:
             continue
         except (ZeroDivisionError, ValueError, TypeError, OverflowError) as e:
             want = "raise:" + type(e).__name__
+        if tree_overflows(t):
+            continue
         # a folder that raises takes the whole build down; those are found (and reported) by run_trees
         if real_call(constant_fold_expr, tree_nodes(t, False), "m")[0].startswith("exc:"):
             ctx.count("fold_e2e_skipped_folder_raises")
